@@ -288,6 +288,19 @@ func convertFacts(s *src, f *facts) {
 	}
 	f.b("clInvokeOutsideLock", invokeOutside, s.pos(call))
 	f.b("clLockIsMutex", plainMutex, s.pos(call))
+	sites := 0
+	for name, file := range s.files {
+		if name != "registry.go" && name != "manager.go" {
+			continue
+		}
+		ast.Inspect(file, func(n ast.Node) bool {
+			if se, ok := n.(*ast.SelectorExpr); ok && se.Sel.Name == "closures" {
+				sites++
+			}
+			return true
+		})
+	}
+	f.n("clTableSites", sites, "selector expressions `.closures` in registry.go / manager.go")
 	f.b("clMissingIsError", missing, s.pos(call))
 	reg := s.funcDecl("", "registerClosure")
 	delOK, insOK, idFresh := false, false, false
